@@ -1677,6 +1677,23 @@ ly_time_str2time(const char *value, time_t *time, char **fractions_s)
     /* all the characters up to the one after seconds are accessed */
     LY_CHECK_ARG_RET(NULL, value, strlen(value) > 18, time, LY_EINVAL);
 
+    /* the fixed part must be YYYY-MM-DDThh:mm:ss, only then the fields can be converted safely */
+    for (i = 0; i < 19; ++i) {
+        if ((i == 4) || (i == 7)) {
+            frac_len = (value[i] == '-');
+        } else if (i == 10) {
+            frac_len = ((value[i] == 'T') || (value[i] == 't'));
+        } else if ((i == 13) || (i == 16)) {
+            frac_len = (value[i] == ':');
+        } else {
+            frac_len = isdigit((unsigned char)value[i]) ? 1 : 0;
+        }
+        if (!frac_len) {
+            LOGERR(NULL, LY_EINVAL, "Invalid date-and-time value \"%s\".", value);
+            return LY_EINVAL;
+        }
+    }
+
     tm.tm_year = atoi(&value[0]) - 1900;
     tm.tm_mon = atoi(&value[5]) - 1;
     tm.tm_mday = atoi(&value[8]);
